@@ -41,6 +41,8 @@ type Up4Gen struct {
 	// ForceSessQer / OneFlow: every session has a session QER / exactly one flow (crowds that hold many meter cells)
 	ForceSessQer bool
 	OneFlow      bool
+	PeerBase     int // the generator's peers are p<PeerBase+1>..
+	SessionOnly  bool
 }
 
 type uflow struct {
@@ -150,7 +152,17 @@ func (g *Up4Gen) mkFlow() *pfcpx.Flow {
 	}
 }
 
-func (g *Up4Gen) peerName(i int) string { return fmt.Sprintf("p%d", i+1) }
+// MarkAssoc tells the generator that the peer is associated already.
+func (g *Up4Gen) MarkAssoc(peer string) { g.assoc[peer] = true }
+
+func (g *Up4Gen) peerName(i int) string { return fmt.Sprintf("p%d", g.PeerBase+i+1) }
+
+// Disjoint gives the generator its own block of UE addresses and TEIDs (generators running side by side).
+func (g *Up4Gen) Disjoint(k int) {
+	g.ueCtr = 0x0AFA0000 + uint32(k)<<12
+	g.teidCtr = uint32(k+1) << 26
+	g.cpCtr = uint64(k+1) << 40
+}
 
 func (g *Up4Gen) precedence() uint32 {
 	if g.Wide {
@@ -556,6 +568,8 @@ func (g *Up4Gen) Step() bool {
 				s.live = false
 			}
 		}
+	case g.SessionOnly:
+		g.Modify(live[g.R.Intn(len(live))])
 	default:
 		w.Heartbeat(peer)
 	}
